@@ -4,6 +4,7 @@ from __future__ import annotations
 import ast
 
 from ..core import AnalysisError, norm
+from .. import aud
 from ..astutil import (walk_local, stores, attr_stores, stmt_list_of, enclosing, ancestors, find_calls, parent,
                        dominates_structurally, is_const)
 from ..cfg import find_fold, init_before, whole_collection, paths
@@ -18,6 +19,7 @@ META = dict(
          "consistently (loop key `c` and `con` denote the same contest).",
     technique="fold/ordering/alias rules over the AST (loop-skeleton recognisers, def-use, who-may-write)",
 )
+META["text"] += " (R7, N) Contest's constructor stores risk_limit, assertions, winner, n_winners, candidates from its parameters."
 
 REL = "shangrla/core/Audit.py"
 
@@ -71,6 +73,8 @@ def run(chk):
     r_summarize(chk)
     r_reset(chk)
     r_params(chk)
+    # R7: the limit each assertion is compared with is the contest's configured one
+    aud.ctor_fields(chk, "C09.R7", REL, "Contest", ["risk_limit", "assertions", "n_winners", "winner", "candidates"], "completion compares p-values with con.risk_limit")
 
 
 # ---------------------------------------------------------------------------
